@@ -1,6 +1,6 @@
 """C02 - VPSC: solve() returns the unique weighted least-squares optimum (DESIGN 5.2).
 proof: kkt_sufficient / kkt_ok_sound / kkt_gap_sound / uniqueness / order independence (Vpsc/KKT.v), and the
-refutation of "IncSolver::solve always returns the optimum" for re-solve histories (Vpsc/VpscRefute.v);
+refutation of "IncSolver::solve always returns the optimum" for the solve() loop before /repo 676ca34 (Vpsc/VpscRefute.v);
 tie: V (the proved certificate checker kkt_ok decides optimality of every real solve() result: multipliers come from
 the active forest of the REAL solver's final state, never from its stale lm fields; fall-backs: the model's forest,
 exact active-set enumeration for n<=5, the proved duality-gap bound) + C (model vs implementation, as in C01)."""
@@ -197,9 +197,9 @@ META = {
         'text': 'Coq theorems for every n, m, positive weights, arbitrary scales: a KKT certificate (feasible, multipliers >= 0 on inequalities, zero on '
                 'non-tight constraints, stationarity in the code\'s scale convention) implies optimality and uniqueness (kkt_sufficient, kkt_unique); the boolean '
                 'checker kkt_ok is sound and complete for those conditions; kkt_gap gives a proved bound obj(x)-obj(y) <= B for any placement x and any multipliers; '
-                'the optimum is independent of the constraint order. "IncSolver::solve always returns the optimum" is REFUTED on the faithful model for re-solve '
-                'histories (C02_solve_optimal_refuted) and the witness replays on the real code (known finding cost_stall); for fresh solves it is decided per '
-                'run by the certificate (C02_solve_certified_partial), not proved for all runs.',
+                'the optimum is independent of the constraint order. "IncSolver::solve always returns the optimum" was REFUTED on the faithful model of the loop '
+                'before /repo 676ca34 (C02_solve_optimal_refuted_before_fix; witnesses replayed on the real code, now regression inputs in the corpus); for the '
+                'current loop it is decided per run by the certificate (C02_solve_certified_partial), not proved for all runs.',
         'design_ref': 'DESIGN.md 5.2'},
     'level_note': 'Trusted: Coq kernel; extraction + OCaml driver (its optimum-proposing helpers are unverified but every proposal passes the proved kkt_ok); C++ harness; '
                   'exact-rational model of binary64. Not proved: that solve() reaches a KKT point (tree induction over compute_dfdv not done); termination; '
